@@ -63,6 +63,7 @@ impl FormatType {
 //@|                && r->Ok_0.pdu_body.start == 2 && r->Ok_0.pdu_body.end == final(cursor).pos - 2,
 //@|        }),
 //@|        r matches Err(RequestError::Exception(e)) ==> body.ser_exc(e),
+//@|        r is Err ==> (r->Err_0 is Exception || r->Err_0 is Internal),
 }
 
 // the same with the body described by a predicate instead of a Serialize object
@@ -110,6 +111,7 @@ impl FrameWriter {
 //@|        r is Ok ==> r->Ok_0.start == 0 && r->Ok_0.end <= 260
 //@|            && frame_ok(old(self).is_tcp(), final(self).buffer@, r->Ok_0.end as int, header, function.spec_value(), body),
 //@|        r matches Err(RequestError::Exception(e)) ==> body.ser_exc(e),
+//@|        r is Err ==> (r->Err_0 is Exception || r->Err_0 is Internal),
 
 // [C03] exactly one frame whose bytes are the protocol encoding of the request, or an error
 //@fn rodbus/src/common/frame.rs | FrameWriter::format_request | tags=C03,C06,C20 | r10=0 r10id=0
@@ -118,6 +120,7 @@ impl FrameWriter {
 //@|        r is Ok ==> r->Ok_0@.len() <= 260
 //@|            && frame_ok(old(self).is_tcp(), r->Ok_0@, r->Ok_0@.len() as int, header, crate::common::function::spec_fc_value(function), body),
 //@|        r matches Err(RequestError::Exception(e)) ==> body.ser_exc(e),
+//@|        r is Err ==> (r->Err_0 is Exception || r->Err_0 is Internal),
 //@entry| broadcast use lemma_subrange_subrange;
 
 // [C01] an exception reply carries function | 0x80 and the one-byte code
@@ -126,7 +129,7 @@ impl FrameWriter {
 //@|    ensures final(self).is_tcp() == old(self).is_tcp(),
 //@|        r is Ok ==> r->Ok_0@.len() <= 260 && frame_ok(old(self).is_tcp(), r->Ok_0@, r->Ok_0@.len() as int, header,
 //@|            (match function { FunctionField::Valid(x) => crate::common::function::spec_fc_value(x) | 0x80, FunctionField::Exception(x) => crate::common::function::spec_fc_value(x) | 0x80, FunctionField::UnknownFunction(x) => x | 0x80 }), &ex),
-//@|        !(r matches Err(RequestError::Exception(_))),
+//@|        r is Err ==> r->Err_0 is Internal,
 //@entry| broadcast use lemma_subrange_subrange;
 
 // [C01] the reply is the normal frame, or - if a point handler raised `e` while the body was produced - exactly the exception frame for `e`
@@ -137,6 +140,6 @@ impl FrameWriter {
 //@|            frame_ok(old(self).is_tcp(), r->Ok_0@, r->Ok_0@.len() as int, header, crate::common::function::spec_fc_value(function), body)
 //@|            || exists|e: ExceptionCode| #[trigger] body.ser_exc(e)
 //@|                && frame_ok(old(self).is_tcp(), r->Ok_0@, r->Ok_0@.len() as int, header, crate::common::function::spec_fc_value(function) | 0x80, &e)),
-//@|        !(r matches Err(RequestError::Exception(_))),
+//@|        r is Err ==> r->Err_0 is Internal,
 //@entry| broadcast use lemma_subrange_subrange;
 }
